@@ -15,11 +15,86 @@ use crate::internal::{MiniAllocator, Sectors, Stream, Version};
 use std::io::{Read, Seek, SeekFrom, Write};
 use std::sync::Arc;
 
-pub type FF = FaultyFile<PtrFile<NSTOR>>;
+/// Backend in which exactly the `at`-th call among the enabled kinds
+/// (read / write / seek / flush) fails once the harness has armed it.  `at` is
+/// concrete per harness instance (the position k of the property's quantifier is
+/// enumerated by instances); everything else is symbolic data.
+pub struct FaultAt<T> {
+    pub f: T,
+    pub armed: bool,
+    pub at: usize,
+    pub calls: usize,
+    pub injected: u32,
+    pub fail_reads: bool,
+    pub fail_writes: bool,
+    pub fail_seeks: bool,
+    pub fail_flush: bool,
+}
+impl<T> FaultAt<T> {
+    fn fault(&mut self, enabled: bool) -> bool {
+        if !self.armed || !enabled {
+            return false;
+        }
+        let c = self.calls;
+        self.calls += 1;
+        if c == self.at {
+            self.injected += 1;
+            return true;
+        }
+        false
+    }
+}
+impl<T: Read> Read for FaultAt<T> {
+    fn read(&mut self, buf: &mut [u8]) -> std::io::Result<usize> {
+        if self.fault(self.fail_reads) {
+            return Err(std::io::Error::from(std::io::ErrorKind::Other));
+        }
+        self.f.read(buf)
+    }
+}
+impl<T: Write> Write for FaultAt<T> {
+    fn write(&mut self, buf: &[u8]) -> std::io::Result<usize> {
+        if self.fault(self.fail_writes) {
+            return Err(std::io::Error::from(std::io::ErrorKind::Other));
+        }
+        self.f.write(buf)
+    }
+    fn flush(&mut self) -> std::io::Result<()> {
+        if self.fault(self.fail_flush) {
+            return Err(std::io::Error::from(std::io::ErrorKind::Other));
+        }
+        self.f.flush()
+    }
+}
+impl<T: Seek> Seek for FaultAt<T> {
+    fn seek(&mut self, pos: SeekFrom) -> std::io::Result<u64> {
+        if self.fault(self.fail_seeks) {
+            return Err(std::io::Error::from(std::io::ErrorKind::Other));
+        }
+        self.f.seek(pos)
+    }
+}
 
-/// `p` must stay where it is (the file points into `p.data`).
-fn mk_faulty(p: &mut Parts) -> MiniAllocator<FF> {
-    let file = FaultyFile { f: PtrFile::over(&mut p.data, p.len), budget: 0, injected: 0, fail_reads: false, fail_writes: false, fail_seeks: false, fail_flush: false };
+pub const NFI: usize = 3072; // header + 5 sectors: the fault scenarios allocate nothing
+pub type FF = FaultAt<PtrFile<NFI>>;
+
+/// Result without io::Error's drop glue (see h_cache.rs::split).
+fn okv<T>(r: std::io::Result<T>) -> Option<T> {
+    match r {
+        Ok(v) => Some(v),
+        Err(e) => {
+            std::mem::forget(e);
+            None
+        }
+    }
+}
+
+/// `img` must stay where it is (the file points into it).  A 3 KB copy of the
+/// image keeps symbolic-offset accesses (every access after an injected error is
+/// symbolic to CBMC, see DESIGN.md) at a 3072-way instead of a 7680-way split.
+fn mk_faulty(p: &mut Parts, img: &mut [u8; NFI]) -> MiniAllocator<FF> {
+    img[..SEC * (1 + NSA)].copy_from_slice(&p.data[..SEC * (1 + NSA)]);
+    let file = FaultAt { f: PtrFile::over(img, p.len), armed: false, at: 0, calls: 0, injected: 0, fail_reads: false, fail_writes: false, fail_seeks: false, fail_flush: false };
     assemble(file, p.len, std::mem::take(&mut p.fat), std::mem::take(&mut p.entries), std::mem::take(&mut p.mf), std::mem::take(&mut p.mfree))
 }
 
@@ -27,10 +102,12 @@ fn file_of(m: &mut MiniAllocator<FF>) -> &mut FF {
     secacc::inner_mut(aacc::sectors_mut(dacc::allocator_mut(macc::directory_mut(m))))
 }
 
-fn arm(arc: &Arc<RwLock<MiniAllocator<FF>>>, reads: bool, writes: bool, seeks: bool, flush: bool, budget: u32) {
+fn arm(arc: &Arc<RwLock<MiniAllocator<FF>>>, reads: bool, writes: bool, seeks: bool, flush: bool, at: Option<usize>) {
     let mut g = arc.write().unwrap();
     let f = file_of(&mut g);
-    f.budget = budget;
+    f.armed = at.is_some();
+    f.at = at.unwrap_or(0);
+    f.calls = 0;
     f.fail_reads = reads;
     f.fail_writes = writes;
     f.fail_seeks = seeks;
@@ -45,44 +122,44 @@ fn injected(arc: &Arc<RwLock<MiniAllocator<FF>>>) -> u32 {
 // C12: a failed read (or seek) during a buffer refill never turns into wrong
 // data on retry; position is unchanged by the failed call.  (variant buf8:
 // 8-byte window, so the second read needs a refill.)
+macro_rules! c12_read_fault {
+    ($name:ident, $at:expr) => {
 #[kani::proof]
 #[kani::stub(std::fmt::format, stub_format)]
 #[kani::stub(crate::internal::stream::Stream::minialloc, sacc::stub_upgrade)]
-#[kani::unwind(140)]
-fn c12_read_fault_retry() {
+#[kani::unwind(40)]
+fn $name() {
     let mut p = small_parts(&[1, EOC, EOC], 0, 100, 2, 64);
     let mut content = [0u8; 100];
-    let mut i = 0;
-    while i < 100 {
-        content[i] = p.data[soff(3) + (if i < 64 { i } else { 64 + i - 64 })];
-        i += 1;
-    }
-    let arc = Arc::new(RwLock::new(mk_faulty(&mut p)));
+    content.copy_from_slice(&p.data[soff(3)..soff(3) + 100]);
+    let mut i;
+    let mut img = [0u8; NFI];
+    let arc = Arc::new(RwLock::new(mk_faulty(&mut p, &mut img)));
     let mut s = Stream::new(&arc, 1, 0);
     let mut b = [0u8; 8];
-    let r = s.read(&mut b);
-    assert!(r.is_ok() && r.unwrap() == 8, "C06: first read");
+    let r = okv(s.read(&mut b));
+    assert!(r == Some(8), "C06: first read");
     let mut ok = true;
     i = 0;
     while i < 8 { ok &= b[i] == content[i]; i += 1; }
     assert!(ok, "C06: first window");
-    arm(&arc, true, false, true, false, 1);
+    arm(&arc, true, false, true, false, Some($at));
     let mut b2 = [0u8; 8];
-    let r1 = s.read(&mut b2);
-    arm(&arc, false, false, false, false, 0);
+    let r1 = okv(s.read(&mut b2));
+    arm(&arc, false, false, false, false, None);
     let pos = sacc::position(&s);
     match r1 {
-        Ok(n) => {
+        Some(n) => {
             assert!(n > 0 && n <= 8 && pos == 8 + n as u64, "C12: read result/position");
             ok = true;
             i = 0;
             while i < n { ok &= b2[i] == content[8 + i]; i += 1; }
             assert!(ok, "C12: a read that returned Ok under fault injection returned wrong bytes");
         }
-        Err(_) => {
+        None => {
             assert!(pos == 8, "C12: failed read moved the position");
-            let r2 = s.read(&mut b2);
-            assert!(r2.is_ok(), "C12: retry after a transient fault failed");
+            let r2 = okv(s.read(&mut b2));
+            assert!(r2.is_some(), "C12: retry after a transient fault failed");
             let n = r2.unwrap();
             assert!(n > 0 && n <= 8, "C12: retry returned nothing");
             ok = true;
@@ -91,44 +168,54 @@ fn c12_read_fault_retry() {
             assert!(ok, "C12: retry after a failed read returned wrong bytes (stale window)");
         }
     }
-    kani::cover!(injected(&arc) == 1, "a fault was injected");
+    kani::cover!(injected(&arc) == 1 || $at >= 4, "a fault was injected (or the refill needs fewer calls)");
     std::mem::forget(s);
     std::mem::forget(arc);
 }
+    };
+}
+c12_read_fault!(c12_read_fault_at0, 0);
+c12_read_fault!(c12_read_fault_at1, 1);
+c12_read_fault!(c12_read_fault_at2, 2);
+c12_read_fault!(c12_read_fault_at3, 3);
+c12_read_fault!(c12_read_fault_at5, 5);
 
 // C13: a failed write-back is reported; a later flush that returns Ok means
 // the bytes are stored (also after an earlier failed flush).
+macro_rules! c13_flush_fault {
+    ($name:ident, $at:expr) => {
 #[kani::proof]
 #[kani::stub(std::fmt::format, stub_format)]
 #[kani::stub(std::io::copy, stub_io_copy)]
 #[kani::stub(crate::internal::stream::Stream::minialloc, sacc::stub_upgrade)]
-#[kani::unwind(140)]
-fn c13_flush_fault_retry() {
+#[kani::unwind(40)]
+fn $name() {
     let mut p = small_parts(&[1, EOC, EOC], 0, 100, 2, 64);
-    let arc = Arc::new(RwLock::new(mk_faulty(&mut p)));
+    let mut img = [0u8; NFI];
+    let arc = Arc::new(RwLock::new(mk_faulty(&mut p, &mut img)));
     let mut s = Stream::new(&arc, 1, 0);
     assert!(s.seek(SeekFrom::Start(60)).is_ok());
     let w: [u8; 6] = kani::any();
-    let r = s.write(&w);
-    assert!(r.is_ok() && r.unwrap() == 6, "C06: buffered write");
-    arm(&arc, false, true, true, true, 1);
-    let r1 = s.flush();
+    let r = okv(s.write(&w));
+    assert!(r == Some(6), "C06: buffered write");
+    arm(&arc, false, true, true, true, Some($at));
+    let r1 = okv(s.flush());
     let inj = injected(&arc);
-    arm(&arc, false, false, false, false, 0);
+    arm(&arc, false, false, false, false, None);
     if inj == 1 {
-        assert!(r1.is_err(), "C13: a write/seek/flush failure of the underlying file during flush was swallowed");
+        assert!(r1.is_none(), "C13: a write/seek/flush failure of the underlying file during flush was swallowed");
     }
-    let r2 = s.flush();
-    assert!(r2.is_ok() || r1.is_err(), "C13: flush failed although no fault is injected any more and the first flush succeeded");
-    if r2.is_ok() {
+    let r2 = okv(s.flush());
+    assert!(r2.is_some() || r1.is_none(), "C13: flush failed although no fault is injected any more and the first flush succeeded");
+    if r2.is_some() {
         // fresh handle reads the bytes back
         let mut t = Stream::new(&arc, 1, 0);
         assert!(t.seek(SeekFrom::Start(60)).is_ok());
         let mut back = [0u8; 6];
         let mut got = 0;
         while got < 6 {
-            let r = t.read(&mut back[got..]);
-            assert!(r.is_ok(), "C13: reading back failed");
+            let r = okv(t.read(&mut back[got..]));
+            assert!(r.is_some(), "C13: reading back failed");
             let n = r.unwrap();
             assert!(n > 0, "C13: stream shorter than the bytes written");
             got += n;
@@ -139,35 +226,45 @@ fn c13_flush_fault_retry() {
         assert!(ok, "C13: flush returned Ok but the bytes accepted by write are not in the compound file");
         std::mem::forget(t);
     }
-    kani::cover!(inj == 1 && r2.is_ok(), "failed flush followed by a successful one");
+    kani::cover!((inj == 1 && r2.is_some()) || $at >= 8, "failed flush followed by a successful one (or the write-back needs fewer calls)");
     std::mem::forget(s);
     std::mem::forget(arc);
 }
+    };
+}
+c13_flush_fault!(c13_flush_fault_at0, 0);
+c13_flush_fault!(c13_flush_fault_at1, 1);
+c13_flush_fault!(c13_flush_fault_at2, 2);
+c13_flush_fault!(c13_flush_fault_at4, 4);
+c13_flush_fault!(c13_flush_fault_at7, 7);
+c13_flush_fault!(c13_flush_fault_at10, 10);
 
 // C13: a fault while freeing a chain is reported; the allocator's tables stay
 // usable (no sector is on the free list twice, every listed sector is FREE),
 // a retry does not panic.
-pub type FFA = FaultyFile<ArrFile<NA>>;
+pub type FFA = FaultAt<ArrFile<NA>>;
+macro_rules! c13_free_fault {
+    ($name:ident, $at:expr) => {
 #[kani::proof]
 #[kani::stub(std::fmt::format, stub_format)]
 #[kani::unwind(140)]
-fn c13_free_fault_retry() {
+fn $name() {
     let pre = [FATSECT, 3, EOC, 2];
     let data = super::h_alloc::image_for(&pre, 0);
     let len = SEC * (1 + NS);
-    let file = FaultyFile { f: ArrFile::new(data, len), budget: 1, injected: 0, fail_reads: false, fail_writes: true, fail_seeks: true, fail_flush: false };
+    let file = FaultAt { f: ArrFile::new(data, len), armed: true, at: $at, calls: 0, injected: 0, fail_reads: false, fail_writes: true, fail_seeks: true, fail_flush: false };
     let sectors = Sectors::new(Version::V3, len as u64, file);
     let mut fv = Vec::with_capacity(NS + 2);
     let mut i = 0;
     while i < NS { fv.push(pre[i]); i += 1; }
     let mut a = aacc::mk(sectors, Vec::new(), vec![0u32], fv, Vec::with_capacity(NS + 2));
-    let r1 = a.free_chain(1);
+    let r1 = okv(a.free_chain(1));
     let inj = secacc::inner_mut(aacc::sectors_mut(&mut a)).injected;
     if inj == 1 {
-        assert!(r1.is_err(), "C13: a write failure while freeing a chain was swallowed");
+        assert!(r1.is_none(), "C13: a write failure while freeing a chain was swallowed");
     }
-    secacc::inner_mut(aacc::sectors_mut(&mut a)).budget = 0;
-    let _ = a.free_chain(1); // may fail (the chain is partly freed), must not panic
+    secacc::inner_mut(aacc::sectors_mut(&mut a)).armed = false;
+    let _ = okv(a.free_chain(1)); // may fail (the chain is partly freed), must not panic
     let fat = aacc::fat(&a);
     let fl = aacc::free_sectors(&a);
     let mut ok = true;
@@ -182,3 +279,10 @@ fn c13_free_fault_retry() {
     kani::cover!(inj == 1, "a fault was injected");
     std::mem::forget(a);
 }
+    };
+}
+c13_free_fault!(c13_free_fault_at0, 0);
+c13_free_fault!(c13_free_fault_at1, 1);
+c13_free_fault!(c13_free_fault_at2, 2);
+c13_free_fault!(c13_free_fault_at3, 3);
+c13_free_fault!(c13_free_fault_at5, 5);
